@@ -1,26 +1,46 @@
 #!/venv/bin/python
 """Markdown table of the independently seeded changes (from seeded/*/meta.json)."""
+import collections
 import glob
 import json
 import os
+import sys
 
 V = os.path.dirname(os.path.dirname(os.path.abspath(__file__)))
 print('| seed | change (as described by its author) | needs to manifest | first run of our checks | now | caught by |')
 print('|---|---|---|---|---|---|')
+tally = collections.defaultdict(collections.Counter)
 for d in sorted(glob.glob(os.path.join(V, 'seeded', '*'))):
     m = json.load(open(os.path.join(d, 'meta.json')))
     v = m.get('verified', {})
     q, t = v.get('check_quick', {}), v.get('check_thorough', {})
+    fr = v.get('first_run') or {'check_quick': q, 'check_thorough': t}
+    fq, ft = fr.get('check_quick') or {}, fr.get('check_thorough') or {}
     hist = v.get('history', '')
     if hist.startswith('MISSED by quick and thorough'):
-        first = 'missed (quick + thorough)'
+        first = 'missed'
     elif hist.startswith('MISSED by quick, CAUGHT by thorough'):
         first = 'missed by quick, caught by thorough'
+    elif fq.get('caught'):
+        first = 'caught by quick'
+    elif ft.get('caught'):
+        first = 'missed by quick, caught by thorough'
+    elif fq.get('exit') is None and 'did not finish' in (fr.get('note') or ''):
+        first = 'no verdict (the check did not finish)'
+    elif 'rebased' in v:
+        first = 'not determined (patch had to be rebased)'
     else:
-        first = 'caught by quick' if q.get('caught') else 'caught by thorough' if t.get('caught') else 'missed'
-    now = 'caught by quick' if q.get('caught') else 'caught by thorough' if t.get('caught') else 'MISSED'
+        first = 'missed'
+    now = 'caught by quick' if q.get('caught') else 'caught by thorough' if t.get('caught') else ('caught by ' + v['caught_by_other_property_check']['property'] + "'s quick check") if v.get('caught_by_other_property_check') else 'MISSED'
     by = (q.get('new_groups') or t.get('new_groups') or [''])[0].replace('site=', '').replace(' kind=', ' / ')
     def short(x, n):
         x = ' '.join(str(x or '').split()).replace('|', '/')
         return (x[: n - 1] + '…') if len(x) > n else x
     print(f"| {os.path.basename(d)} | {short(m.get('summary'), 170)} | {short(m.get('needs_to_manifest'), 130)} | {first} | {now} | {short(by, 90)} |")
+    name = os.path.basename(d)
+    rnd = 'round ' + (name.split('-')[1][1] if name.split('-')[1].startswith('r') else '1')
+    tally[rnd]['seeds'] += 1
+    tally[rnd]['first: ' + first] += 1
+    tally[rnd]['now: ' + now] += 1
+for rnd in sorted(tally):
+    print(rnd, dict(tally[rnd]), file=sys.stderr)
